@@ -402,10 +402,10 @@ impl ProgProp for DiceProp {
         c.labels.clone()
     }
     fn render(&self, c: &GenCase) -> CaseSrc {
-        CaseSrc { body: c.body.clone(), runnable: c.runnable && c.expect_compile }
+        CaseSrc { body: c.body.clone(), runnable: c.runnable && c.expect_compile, negative: !c.expect_compile }
     }
     fn render_control(&self, c: &GenCase) -> Option<CaseSrc> {
-        c.control.as_ref().map(|b| CaseSrc { body: b.clone(), runnable: false })
+        c.control.as_ref().map(|b| CaseSrc { body: b.clone(), runnable: false, negative: false })
     }
     fn judge(&self, _ctx: &Ctx, c: &GenCase, r: &CaseResult) -> Vec<Finding> {
         let mut out = vec![];
